@@ -584,47 +584,7 @@ def check_guards(ctx, ex, f, fname, pk, p, info):
         ctx.check(ok_ne, rule, f"{pk}:nonempty", f.loc(), "returning paths entail end - start >= 1" if ok_ne else "an empty anomaly (end <= start) reaches the draw", expected="ValueError for empty anomalies")
 
 
-def _dnf(c: Cond, val=True):
-    """disjunction (list) of conjunctions (lists of Lin >= 0) equivalent over the integers to `c is val`; None if not
-    expressible.  any(c)/all(c) are read at the generic element (witness / instance)."""
-    if not val:
-        c = c.neg()
-    t = c.t
-    if t[0] == "const":
-        return [[]] if t[1] else []
-    if t[0] in ("any", "all"):
-        return _dnf(t[1], True)
-    if t[0] == "not":
-        inner = t[1]
-        if inner.t[0] in ("opq",):
-            return None
-        return _dnf(inner, False)
-    if t[0] == "and":
-        a, b = _dnf(t[1]), _dnf(t[2])
-        if a is None or b is None:
-            return None
-        return [x + y for x in a for y in b]
-    if t[0] == "or":
-        a, b = _dnf(t[1]), _dnf(t[2])
-        if a is None or b is None:
-            return None
-        return a + b
-    if t[0] == "cmp":
-        l = Lin.of(t[2])
-        if l is None:
-            return None
-        op = t[1]
-        if op == "<=0":
-            return [[l.neg()]]
-        if op == "<0":
-            n_ = l.neg()
-            return [[Lin(n_.c0 - 1, n_.co)]]
-        if op == "==0":
-            return [[l, l.neg()]]
-        if op == "!=0":
-            n_ = l.neg()
-            return [[Lin(l.c0 - 1, l.co)], [Lin(n_.c0 - 1, n_.co)]]
-    return None
+from ..affine import dnf_of_cond as _dnf  # noqa: E402
 
 
 def _valid_domain(fname, info):
